@@ -129,7 +129,7 @@ def run(ctx: Ctx) -> None:
     # ---- B/C 2: text children in trees, every path -----------------------------------
     cases = []
     for _ in range(ctx.budget(2500, 40000)):
-        d = trees.rand_tree(rng, rng.choice([1, 2, 2, 3, 4]), leaves="TTTHRM", names="bbivsc")
+        d = trees.rand_tree(rng, rng.choice([1, 2, 2, 3, 4]), leaves="TTTHRM", names="bbivsckk")
         cases.append((d, rng.randrange(0, 4), rng.choice(["\n", "\r\n", "", " "])))
 
     def impl_tree(c):
@@ -156,7 +156,7 @@ def run(ctx: Ctx) -> None:
     bad = None
     n = 0
     for _ in range(ctx.budget(2000, 30000)):
-        d = trees.rand_tree(rng, rng.choice([1, 2, 3]), leaves="TTTHM", names="bbivsc", custom=True)
+        d = trees.rand_tree(rng, rng.choice([1, 2, 3]), leaves="TTTHM", names="bbivsckk", custom=True)
         n += 1
         ctx.count(("variant", d), "T" in trees.kinds_in(d), "tree built by mixed child operations")
         st = rng.getstate()
